@@ -1,11 +1,852 @@
-//! C20 — not built yet (see DESIGN.md §5 C20).
+//! C20 — loading damaged database files fails cleanly (DESIGN.md §5 C20).
+//!
+//! Space (deviation-bounded enumeration, every case loaded in a worker subprocess):
+//!   seeds  = small valid files of every format written by the engine itself;
+//!   per seed: every truncation, every single-bit flip, every position × {00,7F,80,FF,+1};
+//!   binary seeds (thorough): all two-edit combinations over the header bytes and every 4-/8-byte
+//!   field the crate's own decoder reads (located by tracing its reads — no second decoder);
+//!   SQL-dump seeds: every single character edit (delete / substitute / insert) over
+//!   Σ = {' \ ; - ( a newline é €}; all short byte strings over a 16-symbol alphabet under each file
+//!   extension (and none) through `Database::load` / `load_sql_dump`; crafted files (zstd frames
+//!   that inflate to ≫ file size, deeply nested expressions / parentheses).
+//! Oracle: the load returns Ok or Err — no panic, no process death, no hang (deadline), and the
+//! largest single allocation request during the load ≤ 64 × file size + 1 MiB (counting allocator).
 
-pub fn run(_tier: &str) -> i32 {
-    eprintln!("MACHINERY-ERROR C20 is not built yet");
-    2
+use std::io::Read;
+use std::path::PathBuf;
+use std::time::Duration;
+
+use serde_json::{json, Value};
+use vibesql_storage::Database;
+
+use crate::common::*;
+use crate::iso::{ChunkOut, Progress, Space};
+use crate::roundtrip::{Case, Kind};
+use crate::spaces;
+
+pub const ALLOC_FACTOR: usize = 64;
+pub const ALLOC_SLACK: usize = 1 << 20;
+const SUBST: [u8; 4] = [0x00, 0x7f, 0x80, 0xff];
+const SQL_SIGMA: [&str; 9] = ["'", "\\", ";", "-", "(", "a", "\n", "é", "€"];
+const SHORT_SIGMA: [u8; 16] = [0x00, 0x01, b'V', b'B', b'S', b'Q', b'L', 0x28, 0xb5, 0x2f, 0xfd, b'{', b'}', b'"', 0xff, b' '];
+const EXTS: [&str; 5] = ["vbsql", "vbsqlz", "json", "sql", "dat"];
+
+#[derive(Clone, Copy, Debug, PartialEq, Eq)]
+pub enum How {
+    /// the format's own loader (load_binary / load_compressed / load_json / load_sql_dump)
+    Own(Fmt),
+    /// `Database::load` (format detection by extension, then magic)
+    Auto,
 }
 
-pub fn replay(_case: &serde_json::Value) -> i32 {
-    eprintln!("MACHINERY-ERROR C20 is not built yet");
-    2
+impl How {
+    fn name(self) -> String {
+        match self {
+            How::Own(f) => format!("own:{}", f.name()),
+            How::Auto => "auto".into(),
+        }
+    }
+    fn from_name(s: &str) -> Option<How> {
+        if s == "auto" {
+            return Some(How::Auto);
+        }
+        s.strip_prefix("own:").and_then(Fmt::from_name).map(How::Own)
+    }
+}
+
+#[derive(Clone, Debug)]
+pub struct Seed {
+    pub name: String,
+    pub fmt: Fmt,
+    pub bytes: Vec<u8>,
+    /// char boundaries (SQL seeds)
+    pub chars: Vec<usize>,
+    /// two-edit positions (binary seeds): header bytes + bytes of 4-/8-byte reads of the decoder
+    pub fields: Vec<usize>,
+    /// (offset, length) of every read the decoder issued on the valid file
+    pub reads: Vec<(usize, usize)>,
+    /// end of header / end of catalog section (binary)
+    pub sections: (usize, usize),
+}
+
+#[derive(Clone, Copy, Debug, PartialEq, Eq)]
+pub enum Family {
+    Trunc,
+    BitFlip,
+    Subst,
+    TwoEdit,
+    CharEdit,
+    Short,
+    Crafted,
+    /// a seed of one format under the extension of every other format, through `Database::load`
+    CrossExt,
+    /// truncations and bit flips of a *binary* seed, re-compressed: the damage reaches the parser
+    /// through the streaming decoder of load_compressed
+    Recompress,
+}
+
+impl Family {
+    fn name(self) -> &'static str {
+        match self {
+            Family::Trunc => "truncation",
+            Family::BitFlip => "bit_flip",
+            Family::Subst => "byte_substitution",
+            Family::TwoEdit => "two_edits",
+            Family::CharEdit => "char_edit",
+            Family::Short => "short_string",
+            Family::Crafted => "crafted",
+            Family::CrossExt => "wrong_extension",
+            Family::Recompress => "recompressed_damage",
+        }
+    }
+}
+
+struct Block {
+    family: Family,
+    seed: usize,
+    start: u64,
+    count: u64,
+}
+
+pub struct C20 {
+    pub tier: String,
+    pub seeds: Vec<Seed>,
+    pub crafted: Vec<(String, String, How, Vec<u8>)>,
+    blocks: Vec<Block>,
+    total: u64,
+    short_len: usize,
+}
+
+// ------------------------------------------------------------------------------------------------
+// seeds
+// ------------------------------------------------------------------------------------------------
+
+fn q(s: &str) -> (Kind, Step) {
+    (Kind::Must, Step::Sql(s.to_string()))
+}
+
+/// The seed databases: (name, steps).
+fn seed_dbs() -> Vec<(&'static str, Vec<(Kind, Step)>)> {
+    let sc = spaces::schemas();
+    let mut catalog: Vec<(Kind, Step)> = vec![q("CREATE SCHEMA s1"), q("CREATE ROLE r1")];
+    catalog.extend(sc[1].prelude.iter().map(|s| (Kind::Must, s.clone())));
+    catalog.push(q("CREATE INDEX i1 ON c (pid, w DESC)"));
+    catalog.push(q("CREATE UNIQUE INDEX i2 ON p (u)"));
+    catalog.push(q("CREATE TABLE lg (n INT, msg VARCHAR(20))"));
+    catalog.push(q("CREATE TRIGGER tr AFTER INSERT ON c FOR EACH ROW WHEN (NEW.pid > 0 AND NEW.w IS NOT NULL) BEGIN INSERT INTO lg VALUES (1, 'x'); END"));
+    vec![
+        (
+            "small",
+            vec![
+                q("CREATE TABLE t (id INT PRIMARY KEY, s VARCHAR(10), d DOUBLE PRECISION)"),
+                q("INSERT INTO t VALUES (1, 'ab', 1.5), (2, NULL, 2.25)"),
+                q("CREATE INDEX ix ON t (s DESC)"),
+            ],
+        ),
+        ("catalog", catalog),
+        (
+            "tiny",
+            vec![q("CREATE TABLE t (id INT NOT NULL, s VARCHAR(4))"), q("INSERT INTO t VALUES (1, 'é')"), q("CREATE INDEX ix ON t (id)")],
+        ),
+        (
+            "types",
+            vec![
+                q("CREATE TABLE ty (a SMALLINT, b BIGINT, c REAL, d NUMERIC(10,2), e CHAR(3), f BOOLEAN, g DATE, h TIME, i TIMESTAMP, j VARCHAR)"),
+                q("INSERT INTO ty VALUES (1.0, 9223372036854775807, 0.5, 12.34, 'ab', TRUE, DATE '2024-02-29', TIME '23:59:59.5', TIMESTAMP '2024-01-01 12:00:00', 'q''uote')"),
+                q("INSERT INTO ty VALUES (NULL, NULL, NULL, NULL, NULL, NULL, NULL, NULL, NULL, NULL)"),
+            ],
+        ),
+        (
+            // long statements with multi-byte characters around byte 100 of the INSERT text
+            // (the dump loader quotes the first 100 bytes of a failing statement)
+            "text",
+            vec![
+                q("CREATE TABLE tx (id INT, s VARCHAR)"),
+                q("INSERT INTO tx VALUES (1, 'aaaaaaaaaaaaaaaaaaaaaaaaaaaaaaaaaaaaaaaaaaaaaaaaaaaaaaaaaaaaaaaaaaaaaaéééééééééééééééééééééééééééé€€€€😀')"),
+                q("INSERT INTO tx VALUES (2, 'aaaaaaaaaaaaaaaaaaaaaaaaaaaaaaaaaaaaaaaaaaaaaaaaaaaaaaaaaaaaaaaaaaaaaaaéééééééééééééééééééééééééééé€€€€😀')"),
+            ],
+        ),
+    ]
+}
+
+/// A `Read` that records (offset, length) of every read request the decoder issues.
+struct Tracing<'a> {
+    data: &'a [u8],
+    pos: usize,
+    log: Vec<(usize, usize)>,
+}
+
+impl Read for Tracing<'_> {
+    fn read(&mut self, buf: &mut [u8]) -> std::io::Result<usize> {
+        let n = buf.len().min(self.data.len() - self.pos);
+        buf[..n].copy_from_slice(&self.data[self.pos..self.pos + n]);
+        self.log.push((self.pos, buf.len()));
+        self.pos += n;
+        Ok(n)
+    }
+}
+
+fn trace_binary(bytes: &[u8]) -> Option<(Vec<(usize, usize)>, (usize, usize))> {
+    use vibesql_storage::persistence::binary as b;
+    let mut r = Tracing { data: bytes, pos: 0, log: vec![] };
+    b::read_header(&mut r).ok()?;
+    let h = r.pos;
+    let mut db = b::read_catalog(&mut r).ok()?;
+    let c = r.pos;
+    b::read_data(&mut r, &mut db).ok()?;
+    Some((r.log, (h, c)))
+}
+
+fn make_seed(name: &str, fmt: Fmt, bytes: Vec<u8>) -> Seed {
+    let mut s = Seed { name: name.to_string(), fmt, bytes, chars: vec![], fields: vec![], reads: vec![], sections: (0, 0) };
+    if fmt == Fmt::Sql {
+        if let Ok(t) = std::str::from_utf8(&s.bytes) {
+            s.chars = t.char_indices().map(|(i, _)| i).collect();
+        }
+    }
+    if fmt == Fmt::Bin {
+        if let Some((reads, sec)) = trace_binary(&s.bytes) {
+            let mut f: Vec<usize> = (0..sec.0.min(s.bytes.len())).collect();
+            for &(o, l) in &reads {
+                if (l == 4 || l == 8) && o >= sec.0 {
+                    f.extend(o..(o + l).min(s.bytes.len()));
+                }
+            }
+            f.sort();
+            f.dedup();
+            s.fields = f;
+            s.reads = reads;
+            s.sections = sec;
+        }
+    }
+    s
+}
+
+/// Strip the wall-clock lines so that driver and workers agree on the seed bytes even if they
+/// were generated independently (they are not: workers read the driver's files).
+fn seed_dir() -> PathBuf {
+    match std::env::var("PERSIST_SEED_DIR") {
+        Ok(d) => PathBuf::from(d),
+        Err(_) => {
+            let d = PathBuf::from(format!("/tmp/persist-seeds-{}", std::process::id()));
+            let _ = std::fs::create_dir_all(&d);
+            std::env::set_var("PERSIST_SEED_DIR", &d);
+            d
+        }
+    }
+}
+
+fn generate_seeds(dir: &PathBuf) -> Result<(), String> {
+    for (name, steps) in seed_dbs() {
+        let case = Case { sig: vec![], steps, fmts: vec![] };
+        let mut ev = crate::roundtrip::Eval::default();
+        let Some(db) = crate::roundtrip::build(&case, &mut ev) else {
+            return Err(format!("seed database {}: {:?}", name, ev.machinery));
+        };
+        for f in ALL_FMT {
+            let p = dir.join(format!("{}.{}", name, f.ext()));
+            save(&db, f, &p).map_err(|e| format!("seed {} {}: {}", name, f.name(), e.text()))?;
+        }
+    }
+    // crafted files
+    for (name, ext, _how, bytes) in craft() {
+        std::fs::write(dir.join(format!("crafted-{}.{}", name, ext)), bytes).map_err(|e| e.to_string())?;
+    }
+    std::fs::write(dir.join("READY"), b"ok").map_err(|e| e.to_string())
+}
+
+/// zstd frame of `n` zero bytes made of RLE blocks (RFC 8878: block type 1), no checksum.
+fn zstd_rle_zeros(n: usize, prefix_raw: &[u8]) -> Vec<u8> {
+    let mut f = vec![0x28, 0xb5, 0x2f, 0xfd];
+    // frame header descriptor: FCS flag 0, single-segment 0, no checksum, no dict → 0x00; window descriptor follows
+    f.push(0x00);
+    // window descriptor: exponent 10 + (x<<3): windowLog = 10 + 17 = 27 → 128 MiB would be refused by
+    // default limits; use exponent 10 (windowLog 20 = 1 MiB): 0x50
+    f.push(0x50);
+    let block = |f: &mut Vec<u8>, last: bool, ty: u32, size: u32| {
+        let h = (size << 3) | (ty << 1) | (last as u32);
+        f.extend_from_slice(&h.to_le_bytes()[..3]);
+    };
+    if !prefix_raw.is_empty() {
+        block(&mut f, false, 0, prefix_raw.len() as u32);
+        f.extend_from_slice(prefix_raw);
+    }
+    let mut left = n;
+    while left > 0 {
+        let sz = left.min(128 * 1024);
+        left -= sz;
+        block(&mut f, left == 0, 1, sz as u32);
+        f.push(0);
+    }
+    f
+}
+
+fn craft() -> Vec<(String, String, How, Vec<u8>)> {
+    let mut out: Vec<(String, String, How, Vec<u8>)> = vec![];
+    // 1. a few KiB of zstd that inflate to 64 MiB of zeros (no VBSQL magic inside)
+    out.push(("zstd-zeros-64MiB".into(), "vbsqlz".into(), How::Own(Fmt::Zst), zstd_rle_zeros(64 << 20, &[])));
+    // 2. the same behind a valid VBSQL header + empty catalog prefix
+    let mut hdr = b"VBSQL\x01\x00".to_vec();
+    hdr.extend_from_slice(&[0u8; 9]);
+    out.push(("zstd-header-then-zeros-64MiB".into(), "vbsqlz".into(), How::Own(Fmt::Zst), zstd_rle_zeros(64 << 20, &hdr)));
+    // 3. SQL dump with deeply nested parentheses in a VALUES item
+    for depth in [1_000usize, 100_000] {
+        let mut s = String::from("CREATE TABLE t (a INT);\nINSERT INTO t VALUES (");
+        s.push_str(&"(".repeat(depth));
+        s.push('1');
+        s.push_str(&")".repeat(depth));
+        s.push_str(");\n");
+        out.push((format!("sql-parens-{}", depth), "sql".into(), How::Own(Fmt::Sql), s.into_bytes()));
+    }
+    // 5. binary file with a table of zero columns and a row count of u64::MAX: every "row" consumes
+    //    no bytes (file written by the engine for an empty zero-column table, count patched)
+    {
+        let mut db = Database::new();
+        if db.create_table(vibesql_catalog::TableSchema::new("Z".into(), vec![])).is_ok() {
+            let p = scratch_file("craft0", "vbsql");
+            if save(&db, Fmt::Bin, &p).is_ok() {
+                if let Ok(mut b) = std::fs::read(&p) {
+                    let n = b.len();
+                    if n > 8 && b[n - 8..].iter().all(|x| *x == 0) {
+                        for x in &mut b[n - 8..] {
+                            *x = 0xff;
+                        }
+                        out.push(("binary-zero-columns-rowcount-max".into(), "vbsql".into(), How::Own(Fmt::Bin), b));
+                    }
+                }
+            }
+            let _ = std::fs::remove_file(&p);
+        }
+    }
+    // 4. binary file whose trigger WHEN condition nests NOT n levels deep: the wrapper bytes of one
+    //    level are learned from the engine's own writer (files with 1 and 2 levels)
+    let trig = |n: usize| -> Option<Vec<u8>> {
+        let mut db = Database::new();
+        vcore::exec::must(&mut db, "CREATE TABLE t (a INT)");
+        let mut e = vibesql_ast::Expression::ColumnRef { table: None, column: "A".into() };
+        for _ in 0..n {
+            e = vibesql_ast::Expression::UnaryOp { op: vibesql_ast::UnaryOperator::Not, expr: Box::new(e) };
+        }
+        let t = vibesql_catalog::TriggerDefinition::new(
+            "TR".into(),
+            vibesql_ast::TriggerTiming::After,
+            vibesql_ast::TriggerEvent::Insert,
+            "T".into(),
+            vibesql_ast::TriggerGranularity::Row,
+            Some(Box::new(e)),
+            vibesql_ast::TriggerAction::RawSql("SELECT 1".into()),
+        );
+        db.catalog.create_trigger(t).ok()?;
+        let p = scratch_file("craft", "vbsql");
+        save(&db, Fmt::Bin, &p).ok()?;
+        let b = std::fs::read(&p).ok();
+        let _ = std::fs::remove_file(&p);
+        b
+    };
+    if let (Some(f1), Some(f2), Some(f3)) = (trig(1), trig(2), trig(3)) {
+        let w = f2.len() - f1.len();
+        let p = f1.iter().zip(f2.iter()).take_while(|(a, b)| a == b).count();
+        if w > 0 && p >= w && f3.len() == f2.len() + w {
+            let wrapper = f2[p - w..p].to_vec();
+            let build = |n: usize| -> Vec<u8> {
+                let mut v = f1[..p].to_vec();
+                for _ in 0..n {
+                    v.extend_from_slice(&wrapper);
+                }
+                v.extend_from_slice(&f1[p..]);
+                v
+            };
+            if build(1) == f2 && build(2) == f3 {
+                for depth in [1_000usize, 200_000] {
+                    out.push((format!("binary-nested-when-{}", depth), "vbsql".into(), How::Own(Fmt::Bin), build(depth - 1)));
+                }
+            }
+        }
+    }
+    out
+}
+
+impl C20 {
+    pub fn new(tier: &str) -> Result<C20, String> {
+        let dir = seed_dir();
+        if !dir.join("READY").exists() {
+            generate_seeds(&dir)?;
+        }
+        let quick = tier != "thorough";
+        // (seed name, format, byte-level families?, char-level family?) in the tier
+        let plan: Vec<(&str, Fmt, bool, bool)> = if quick {
+            vec![
+                ("small", Fmt::Bin, true, false),
+                ("catalog", Fmt::Bin, true, false),
+                ("small", Fmt::Zst, true, false),
+                ("tiny", Fmt::Json, true, false),
+                ("tiny", Fmt::Sql, true, false),
+                ("text", Fmt::Sql, false, true),
+            ]
+        } else {
+            let mut v = vec![];
+            for n in ["small", "catalog", "types", "tiny", "text"] {
+                for f in ALL_FMT {
+                    v.push((n, f, true, f == Fmt::Sql));
+                }
+            }
+            v
+        };
+        let mut seeds = vec![];
+        let mut levels = vec![];
+        for (n, f, bytelevel, charlevel) in plan {
+            let p = dir.join(format!("{}.{}", n, f.ext()));
+            let bytes = std::fs::read(&p).map_err(|e| format!("seed file {:?}: {}", p, e))?;
+            seeds.push(make_seed(n, f, bytes));
+            levels.push((bytelevel, charlevel));
+        }
+        let mut crafted = vec![];
+        for (name, ext, how, _) in craft_index() {
+            let p = dir.join(format!("crafted-{}.{}", name, ext));
+            if let Ok(bytes) = std::fs::read(&p) {
+                crafted.push((name, ext, how, bytes));
+            }
+        }
+        let mut blocks = vec![];
+        let mut at = 0u64;
+        let mut push = |family: Family, seed: usize, count: u64, at: &mut u64| {
+            if count > 0 {
+                blocks.push(Block { family, seed, start: *at, count });
+                *at += count;
+            }
+        };
+        for (i, s) in seeds.iter().enumerate() {
+            let n = s.bytes.len() as u64;
+            if levels[i].0 {
+                push(Family::Trunc, i, n, &mut at);
+                push(Family::BitFlip, i, n * 8, &mut at);
+                push(Family::Subst, i, n * 5, &mut at);
+            }
+            if levels[i].1 {
+                // per char: delete, substitute × Σ, insert-before × Σ
+                push(Family::CharEdit, i, s.chars.len() as u64 * (1 + 2 * SQL_SIGMA.len() as u64), &mut at);
+            }
+        }
+        for (i, _) in seeds.iter().enumerate() {
+            push(Family::CrossExt, i, EXTS.len() as u64, &mut at);
+        }
+        for (i, s) in seeds.iter().enumerate() {
+            if s.fmt == Fmt::Bin && (s.name == "small" || !quick) {
+                let n = s.bytes.len() as u64;
+                push(Family::Recompress, i, n + n * 8, &mut at);
+            }
+        }
+        let short_len = if quick { 2 } else { 3 };
+        let n_short: u64 = (0..=short_len).map(|l| (SHORT_SIGMA.len() as u64).pow(l as u32)).sum();
+        // each string under each extension through Database::load, and under .sql through load_sql_dump
+        push(Family::Short, usize::MAX, n_short * (EXTS.len() as u64 + 1), &mut at);
+        push(Family::Crafted, usize::MAX, crafted.len() as u64, &mut at);
+        // the largest family last (a wall-clock cap, if it ever hits, cuts here and says so)
+        if !quick {
+            for (i, s) in seeds.iter().enumerate() {
+                if s.fmt == Fmt::Bin && (s.name == "small" || s.name == "tiny") {
+                    let k = s.fields.len() as u64;
+                    push(Family::TwoEdit, i, k * (k.saturating_sub(1)) / 2 * 25, &mut at);
+                }
+            }
+        }
+        Ok(C20 { tier: tier.to_string(), seeds, crafted, blocks, total: at, short_len })
+    }
+
+    fn block_of(&self, idx: u64) -> &Block {
+        let i = self.blocks.partition_point(|b| b.start + b.count <= idx);
+        &self.blocks[i]
+    }
+
+    /// The case: (bytes, extension, loader, family, seed name, detail, region)
+    pub fn case(&self, idx: u64) -> CaseFile {
+        let b = self.block_of(idx);
+        let k = idx - b.start;
+        let mut cf = CaseFile { bytes: vec![], ext: String::new(), how: How::Auto, family: b.family, seed: String::new(), detail: String::new(), region: "-".into() };
+        if b.seed != usize::MAX {
+            let s = &self.seeds[b.seed];
+            cf.seed = s.name.clone();
+            cf.ext = s.fmt.ext().to_string();
+            cf.how = How::Own(s.fmt);
+            cf.bytes = s.bytes.clone();
+            let n = s.bytes.len() as u64;
+            match b.family {
+                Family::Trunc => {
+                    cf.bytes.truncate(k as usize);
+                    cf.detail = format!("first {} of {} bytes", k, n);
+                    cf.region = s.region(k as usize);
+                }
+                Family::BitFlip => {
+                    let (p, bit) = ((k / 8) as usize, (k % 8) as u8);
+                    cf.bytes[p] ^= 1 << bit;
+                    cf.detail = format!("bit {} of byte {} flipped", bit, p);
+                    cf.region = s.region(p);
+                }
+                Family::Subst => {
+                    let (p, v) = ((k / 5) as usize, (k % 5) as usize);
+                    let nb = if v < 4 { SUBST[v] } else { cf.bytes[p].wrapping_add(1) };
+                    cf.bytes[p] = nb;
+                    cf.detail = format!("byte {} set to {:#04x}", p, nb);
+                    cf.region = s.region(p);
+                }
+                Family::TwoEdit => {
+                    let (pair, vv) = (k / 25, (k % 25) as usize);
+                    // pair index -> (i, j), i < j
+                    let m = s.fields.len() as u64;
+                    let mut i = 0u64;
+                    let mut rest = pair;
+                    while rest >= m - 1 - i {
+                        rest -= m - 1 - i;
+                        i += 1;
+                    }
+                    let j = i + 1 + rest;
+                    let (p1, p2) = (s.fields[i as usize], s.fields[j as usize]);
+                    let val = |orig: u8, v: usize| if v < 4 { SUBST[v] } else { orig.wrapping_add(1) };
+                    cf.bytes[p1] = val(cf.bytes[p1], vv / 5);
+                    cf.bytes[p2] = val(cf.bytes[p2], vv % 5);
+                    cf.detail = format!("byte {} set to {:#04x} and byte {} set to {:#04x}", p1, cf.bytes[p1], p2, cf.bytes[p2]);
+                    cf.region = format!("{}+{}", s.region(p1), s.region(p2));
+                }
+                Family::CrossExt => {
+                    cf.ext = EXTS[k as usize].to_string();
+                    cf.how = How::Auto;
+                    cf.detail = format!("valid {} file under the extension .{}", s.fmt.name(), cf.ext);
+                    cf.region = format!("as_{}", cf.ext);
+                }
+                Family::Recompress => {
+                    if k < n {
+                        cf.bytes.truncate(k as usize);
+                        cf.detail = format!("first {} of {} payload bytes, re-compressed", k, n);
+                        cf.region = s.region(k as usize);
+                    } else {
+                        let (p, bit) = (((k - n) / 8) as usize, ((k - n) % 8) as u8);
+                        cf.bytes[p] ^= 1 << bit;
+                        cf.detail = format!("bit {} of payload byte {} flipped, re-compressed", bit, p);
+                        cf.region = s.region(p);
+                    }
+                    cf.bytes = zstd::encode_all(&cf.bytes[..], 3).unwrap_or_default();
+                    cf.ext = "vbsqlz".into();
+                    cf.how = How::Own(Fmt::Zst);
+                }
+                Family::CharEdit => {
+                    let per = 1 + 2 * SQL_SIGMA.len() as u64;
+                    let (ci, e) = ((k / per) as usize, (k % per) as usize);
+                    let start = s.chars[ci];
+                    let end = s.chars.get(ci + 1).copied().unwrap_or(s.bytes.len());
+                    let mut v = s.bytes[..start].to_vec();
+                    if e == 0 {
+                        cf.detail = format!("char at byte {} deleted", start);
+                    } else if e <= SQL_SIGMA.len() {
+                        v.extend_from_slice(SQL_SIGMA[e - 1].as_bytes());
+                        cf.detail = format!("char at byte {} replaced by {:?}", start, SQL_SIGMA[e - 1]);
+                    } else {
+                        v.extend_from_slice(SQL_SIGMA[e - 1 - SQL_SIGMA.len()].as_bytes());
+                        v.extend_from_slice(&s.bytes[start..end]);
+                        cf.detail = format!("{:?} inserted at byte {}", SQL_SIGMA[e - 1 - SQL_SIGMA.len()], start);
+                    }
+                    v.extend_from_slice(&s.bytes[end..]);
+                    cf.bytes = v;
+                    cf.region = s.region(start);
+                }
+                _ => {}
+            }
+            return cf;
+        }
+        match b.family {
+            Family::Short => {
+                let n_short: u64 = (0..=self.short_len).map(|l| (SHORT_SIGMA.len() as u64).pow(l as u32)).sum();
+                let (e, mut si) = ((k / n_short) as usize, k % n_short);
+                let mut len = 0usize;
+                loop {
+                    let c = (SHORT_SIGMA.len() as u64).pow(len as u32);
+                    if si < c {
+                        break;
+                    }
+                    si -= c;
+                    len += 1;
+                }
+                let mut bytes = vec![];
+                for _ in 0..len {
+                    bytes.push(SHORT_SIGMA[(si % 16) as usize]);
+                    si /= 16;
+                }
+                cf.bytes = bytes;
+                if e < EXTS.len() {
+                    cf.ext = EXTS[e].to_string();
+                    cf.how = How::Auto;
+                } else {
+                    cf.ext = "sql".into();
+                    cf.how = How::Own(Fmt::Sql);
+                }
+                cf.seed = "-".into();
+                cf.detail = format!("{} bytes under .{}", len, cf.ext);
+                cf.region = format!("len{}", len);
+            }
+            Family::Crafted => {
+                let (name, ext, how, bytes) = &self.crafted[k as usize];
+                cf.bytes = bytes.clone();
+                cf.ext = ext.clone();
+                cf.how = *how;
+                cf.seed = name.clone();
+                cf.detail = format!("crafted file {} ({} bytes)", name, bytes.len());
+                cf.region = name.clone();
+            }
+            _ => {}
+        }
+        cf
+    }
+}
+
+fn craft_index() -> Vec<(String, String, How, ())> {
+    vec![
+        ("zstd-zeros-64MiB".into(), "vbsqlz".into(), How::Own(Fmt::Zst), ()),
+        ("zstd-header-then-zeros-64MiB".into(), "vbsqlz".into(), How::Own(Fmt::Zst), ()),
+        ("sql-parens-1000".into(), "sql".into(), How::Own(Fmt::Sql), ()),
+        ("sql-parens-100000".into(), "sql".into(), How::Own(Fmt::Sql), ()),
+        ("binary-nested-when-1000".into(), "vbsql".into(), How::Own(Fmt::Bin), ()),
+        ("binary-nested-when-200000".into(), "vbsql".into(), How::Own(Fmt::Bin), ()),
+        ("binary-zero-columns-rowcount-max".into(), "vbsql".into(), How::Own(Fmt::Bin), ()),
+    ]
+}
+
+impl Seed {
+    /// Which part of the file an offset lies in (binary: by the decoder's own sections and read sizes).
+    fn region(&self, p: usize) -> String {
+        match self.fmt {
+            Fmt::Bin => {
+                let sec = if p < self.sections.0 {
+                    "header"
+                } else if p < self.sections.1 {
+                    "catalog"
+                } else {
+                    "data"
+                };
+                let kind = match self.reads.iter().find(|(o, l)| p >= *o && p < o + l) {
+                    Some((_, 4)) => "u32",
+                    Some((_, 8)) => "u64",
+                    Some((_, 1)) => "byte",
+                    Some((_, 2)) => "i16",
+                    Some(_) => "bytes",
+                    None => "?",
+                };
+                format!("{}.{}", sec, kind)
+            }
+            Fmt::Zst => (if p < 16 { "frame_head" } else { "frame_body" }).to_string(),
+            _ => "text".to_string(),
+        }
+    }
+}
+
+pub struct CaseFile {
+    pub bytes: Vec<u8>,
+    pub ext: String,
+    pub how: How,
+    pub family: Family,
+    pub seed: String,
+    pub detail: String,
+    pub region: String,
+}
+
+impl CaseFile {
+    fn sig(&self) -> Vec<(String, String)> {
+        vec![
+            ("loader".into(), self.how.name()),
+            ("ext".into(), self.ext.clone()),
+            ("family".into(), self.family.name().into()),
+            ("seed".into(), self.seed.clone()),
+            ("region".into(), self.region.clone()),
+        ]
+    }
+    fn json(&self) -> Value {
+        json!({
+            "kind": "file", "ext": self.ext, "loader": self.how.name(), "family": self.family.name(), "seed": self.seed,
+            "edit": self.detail, "hex": hex(&self.bytes),
+        })
+    }
+}
+
+fn hex(b: &[u8]) -> String {
+    // long crafted files are regenerated by name at replay time, not stored
+    if b.len() > 16384 {
+        return String::new();
+    }
+    b.iter().map(|x| format!("{:02x}", x)).collect()
+}
+
+fn unhex(s: &str) -> Vec<u8> {
+    (0..s.len() / 2).filter_map(|i| u8::from_str_radix(&s[2 * i..2 * i + 2], 16).ok()).collect()
+}
+
+#[derive(Debug, Clone, PartialEq)]
+pub enum Fate {
+    Ok,
+    Err,
+    Panic(String),
+}
+
+/// Load `bytes` as a file with extension `ext`; returns the fate and the largest single allocation
+/// request made during the load.
+pub fn load_bytes(bytes: &[u8], ext: &str, how: How) -> (Fate, usize) {
+    let path = scratch_dir().join(format!("case.{}", ext));
+    if std::fs::write(&path, bytes).is_err() {
+        return (Fate::Panic("harness: cannot write the case file".into()), 0);
+    }
+    crate::alloc::reset();
+    let r = match how {
+        How::Own(f) => load(f, &path).map(|_| ()),
+        How::Auto => load_auto(&path).map(|_| ()),
+    };
+    let m = crate::alloc::max_request();
+    (
+        match r {
+            Ok(()) => Fate::Ok,
+            Err(Fail::Err(_)) => Fate::Err,
+            Err(Fail::Panic(m)) => Fate::Panic(m),
+        },
+        m,
+    )
+}
+
+impl Space for C20 {
+    fn total(&self) -> u64 {
+        self.total
+    }
+    fn chunk(&self) -> u64 {
+        if self.tier == "thorough" {
+            20_000
+        } else {
+            3_000
+        }
+    }
+    fn ranges(&self) -> Vec<(u64, u64)> {
+        // chunks never straddle a block (so that expensive families get their own processes)
+        let mut out = vec![];
+        for b in &self.blocks {
+            let chunk = match b.family {
+                Family::Crafted => 1,
+                Family::CharEdit => self.chunk() / 4,
+                _ if self.seeds.get(b.seed).map(|s| s.fmt == Fmt::Sql).unwrap_or(false) => self.chunk() / 4,
+                _ => self.chunk(),
+            }
+            .max(1);
+            let mut a = b.start;
+            while a < b.start + b.count {
+                let e = (a + chunk).min(b.start + b.count);
+                out.push((a, e));
+                a = e;
+            }
+        }
+        out
+    }
+    fn case_deadline(&self) -> Duration {
+        Duration::from_secs(120)
+    }
+    fn run(&self, from: u64, to: u64, p: &Progress) -> ChunkOut {
+        let mut out = ChunkOut::default();
+        for idx in from..to {
+            let cf = self.case(idx);
+            p.begin(idx);
+            let (fate, max_alloc) = load_bytes(&cf.bytes, &cf.ext, cf.how);
+            out.evaluated += 1;
+            let cap = ALLOC_FACTOR * cf.bytes.len() + ALLOC_SLACK;
+            let fname = match &fate {
+                Fate::Ok => "ok",
+                Fate::Err => "err",
+                Fate::Panic(_) => "panic",
+            };
+            out.count(&format!("{}.{}", cf.family.name(), fname), 1);
+            out.count(&format!("loader.{}.{}", cf.how.name(), fname), 1);
+            out.distinct.insert(format!("{}|{}|{}|{}|alloc_over_cap={}", cf.how.name(), cf.family.name(), cf.region, fname, max_alloc > cap));
+            if let Fate::Panic(m) = &fate {
+                let mut sig = cf.sig();
+                sig.push(("fate".into(), "panic".into()));
+                out.viol(idx, sig, format!("loading panics: {} [{}; {}]", vcore::util::trunc(m, 200), cf.seed, cf.detail), cf.json());
+            }
+            if max_alloc > cap {
+                out.count("alloc_over_cap", 1);
+                let mut sig = cf.sig();
+                sig.push(("fate".into(), "allocation".into()));
+                out.viol(
+                    idx,
+                    sig,
+                    format!("a single allocation of {} bytes was requested while loading a {}-byte file (cap {}) [{}; {}]", max_alloc, cf.bytes.len(), cap, cf.seed, cf.detail),
+                    cf.json(),
+                );
+            }
+            if out.samples.len() < 3 && idx % 97 == 0 {
+                out.samples.push(json!({"key": cf.family.name(), "case": cf.detail, "seed": cf.seed, "loader": cf.how.name(), "fate": fname, "max_single_allocation": max_alloc}));
+            }
+        }
+        out
+    }
+    fn describe(&self, idx: u64) -> (Vec<(String, String)>, Value) {
+        let cf = self.case(idx);
+        (cf.sig(), cf.json())
+    }
+}
+
+pub fn run(tier: &str) -> i32 {
+    let mut rep = vcore::report::Report::new("C20", tier, "fault_enumeration");
+    let sp = match C20::new(tier) {
+        Ok(s) => s,
+        Err(e) => {
+            rep.machinery_error(format!("cannot prepare the seed files: {}", e));
+            return rep.finish();
+        }
+    };
+    // sanity: every seed loads, and within the allocation cap (otherwise the cap is wrong, not the engine)
+    for s in &sp.seeds {
+        let (fate, m) = load_bytes(&s.bytes, s.fmt.ext(), How::Own(s.fmt));
+        let cap = ALLOC_FACTOR * s.bytes.len() + ALLOC_SLACK;
+        println!("  seed {}.{}: {} bytes, valid load: {:?}, largest single allocation {} (cap {})", s.name, s.fmt.ext(), s.bytes.len(), fate, m, cap);
+        if fate != Fate::Ok && s.fmt != Fmt::Sql {
+            // (a dump the loader cannot read is C19's finding; its edits are still enumerated)
+            rep.machinery_error(format!("seed {}.{} does not load: {:?}", s.name, s.fmt.ext(), fate));
+        }
+        if m > cap {
+            rep.machinery_error(format!("the unmodified seed {}.{} already exceeds the allocation cap: {} > {}", s.name, s.fmt.ext(), m, cap));
+        }
+    }
+    rep.set(
+        "rule",
+        json!("every enumerated file (all truncations, single-bit flips, byte substitutions {00,7F,80,FF,+1} of engine-written seeds of every format; two-edit combinations over header and decoder-read 4/8-byte fields; single-character edits of SQL dumps; all short byte strings under every extension; crafted inflating / deeply nested files) is loaded in a worker subprocess; violation = panic, process death, hang, or a single allocation request > 64 x file size + 1 MiB"),
+    );
+    rep.set(
+        "seeds",
+        json!(sp.seeds.iter().map(|s| json!({"name": s.name, "format": s.fmt.name(), "bytes": s.bytes.len(), "two_edit_positions": s.fields.len()})).collect::<Vec<_>>()),
+    );
+    rep.set("crafted", json!(sp.crafted.iter().map(|c| json!({"name": c.0, "bytes": c.3.len()})).collect::<Vec<_>>()));
+    rep.set("families", json!(sp.blocks.iter().map(|b| json!({"family": b.family.name(), "seed": sp.seeds.get(b.seed).map(|s| format!("{}.{}", s.name, s.fmt.ext())), "cases": b.count})).collect::<Vec<_>>()));
+    let budget = Duration::from_secs(if tier == "thorough" { 1500 } else { 120 });
+    let all = crate::iso::drive(&sp, &mut rep, budget);
+    println!("C20 {}: {} files loaded of {}; outcomes {:?}", tier, all.evaluated, sp.total, all.counters);
+    let dir = seed_dir();
+    let _ = std::fs::remove_dir_all(&dir);
+    cleanup();
+    rep.finish()
+}
+
+pub fn replay(case: &Value) -> i32 {
+    let ext = case["ext"].as_str().unwrap_or("dat");
+    let Some(how) = case["loader"].as_str().and_then(How::from_name) else {
+        eprintln!("bad case: loader");
+        return 2;
+    };
+    let mut bytes = unhex(case["hex"].as_str().unwrap_or(""));
+    if case["hex"].as_str().unwrap_or("").is_empty() && case["family"] == "crafted" {
+        let name = case["seed"].as_str().unwrap_or("");
+        match craft().into_iter().find(|c| c.0 == name) {
+            Some(c) => bytes = c.3,
+            None => {
+                eprintln!("unknown crafted file {}", name);
+                return 2;
+            }
+        }
+    }
+    println!("file: {} bytes, extension .{}, loader {}, edit: {}", bytes.len(), ext, how.name(), case["edit"].as_str().unwrap_or(""));
+    let (fate, m) = load_bytes(&bytes, ext, how);
+    println!("fate: {:?}", fate);
+    println!("largest single allocation request: {} (cap {})", m, ALLOC_FACTOR * bytes.len() + ALLOC_SLACK);
+    cleanup();
+    0
 }
